@@ -25,7 +25,7 @@ theorem C15_line (items : List (List Char)) (tail : List Char) (cs : List (List 
   refine ⟨by simp, ?_⟩
   have : lastP (items ++ [tail]) = tail := by simp [lastP]
   rw [this]
-  unfold lineFinish
+  unfold lineFinish lineFinishG
   cases tail <;> simp
 
 /-- chunk invariance stated without reference to framing: two chunkings of the same text give the
